@@ -256,6 +256,8 @@ func runC10b(c *Ctx) {
 		var problems []string
 		if !okShape {
 			problems = append(problems, "returns "+got+", not key(last occupied slot)")
+		} else if it := env["i"].String(); it == "call[max](sub("+n+",c[1]),c[0])" || it == "call[max](c[0],sub("+n+",c[1]))" {
+			// builtin form: max(numKeys-1, 0)
 		} else if ph, isPhi := env["i"].V.(*ssa.Phi); !isPhi || len(ph.Edges) != 2 {
 			if env["i"].String() != "sub("+n+",c[1])" {
 				problems = append(problems, "the slot read is "+env["i"].String()+", not numKeys-1 (or 0 for an empty node)")
